@@ -12,9 +12,9 @@ use std::{
 use kira::{
 	backend::Renderer,
 	clock::ClockSpeed,
-	effect::{delay::DelayBuilder, Effect},
+	effect::{delay::DelayBuilder, filter::FilterBuilder, Effect},
 	info::Info,
-	sound::static_sound::{StaticSoundData, StaticSoundSettings},
+	sound::{static_sound::{StaticSoundData, StaticSoundSettings}, Sound, SoundData},
 	track::{MainTrackBuilder, SendTrackBuilder, SpatialTrackBuilder, TrackBuilder},
 	AudioManager, AudioManagerSettings, Capacities, Decibels, Frame, Mix,
 };
@@ -38,6 +38,31 @@ impl Effect for RateProbe {
 	fn process(&mut self, _input: &mut [Frame], dt: f64, _info: &Info) {
 		let (id, seen) = (self.id, self.seen);
 		unarmed(|| self.log.lock().unwrap().push((id, seen, (1.0 / dt).round() as i64)));
+	}
+}
+
+/// silence for `at` seconds of the renderer's own time (sum of dt), then a constant 1.0
+struct StepSound {
+	at: f64,
+	elapsed: f64,
+}
+impl Sound for StepSound {
+	fn process(&mut self, out: &mut [Frame], dt: f64, _info: &Info) {
+		for f in out {
+			*f = if self.elapsed >= self.at - 1e-9 { Frame::new(1.0, 1.0) } else { Frame::ZERO };
+			self.elapsed += dt;
+		}
+	}
+	fn finished(&self) -> bool {
+		false
+	}
+}
+struct StepData(f64);
+impl SoundData for StepData {
+	type Error = ();
+	type Handle = ();
+	fn into_sound(self) -> Result<(Box<dyn Sound>, ()), ()> {
+		Ok((Box::new(StepSound { at: self.0, elapsed: 0.0 }), ()))
 	}
 }
 
@@ -177,6 +202,16 @@ fn run_measure(sc: &Value, t: &mut Tracer) {
 			clock = Some(c);
 			secs1000 = 2000; // 4 ticks
 		}
+		"filter" => {
+			// a critically damped 10 Hz low-pass: its step response crosses 0.5 after 1.678 / (2 pi 10) s = 26.7 ms
+			let mut tr = sim
+				.manager
+				.add_sub_track(TrackBuilder::new().with_effect(FilterBuilder::new().cutoff(10.0)))
+				.unwrap();
+			tr.play(StepData(0.2)).unwrap();
+			std::mem::forget(tr);
+			secs1000 = 27;
+		}
 		_ => {
 			let mut tr = sim
 				.manager
@@ -212,6 +247,12 @@ fn run_measure(sc: &Value, t: &mut Tracer) {
 		for f in 0..cbf {
 			let x = res.out[2 * f];
 			let now = ms + (f as i64 * 1000) / rate as i64;
+			if what == "filter" {
+				if x >= 0.5 && result.is_none() {
+					result = Some(now - 200);
+				}
+				continue;
+			}
 			if x != 0.0 {
 				if first.is_none() {
 					first = Some(now);
@@ -230,6 +271,11 @@ fn run_measure(sc: &Value, t: &mut Tracer) {
 				if clock.as_ref().unwrap().time().ticks >= 4 {
 					// the published time is that of the start of the callback just run
 					result = Some(ms - (cbf as i64 * 1000) / rate as i64);
+					break;
+				}
+			}
+			"filter" => {
+				if result.is_some() {
 					break;
 				}
 			}
